@@ -146,7 +146,7 @@ def run(ctx) -> None:
     # deterministic part: every known id x every first value 0..255 as singleton followed by a sentinel record; sizes 0..10
     n = 0
     sentinel = [0x0212, "01"]
-    for cid in KNOWN_IDS + [0x0001, 0x0300, 0xFFFF, 0x1225]:
+    for cid in KNOWN_IDS + [0x0000, 0x0001, 0x0100, 0x0300, 0xFFFF, 0x1225, 0x00FF, 0xFF00]:
         for size in range(0, 11):
             vals = [0] if size == 0 else (range(256) if (size == 1 and not ctx.quick) else [0, 1, 2, 3, 4, 5, 6, 7, 9, 13, 100, 255])
             for v in vals:
@@ -178,7 +178,7 @@ def run(ctx) -> None:
     first = st.one_of(st.integers(0, 13), st.just(100), st.integers(0, 255))
     data = st.integers(0, 10).flatmap(lambda size: st.tuples(first, st.binary(min_size=max(0, size - 1), max_size=max(0, size - 1))).map(
         lambda t, size=size: (bytes([t[0]]) + t[1])[:size]))
-    cid = st.one_of(st.sampled_from(KNOWN_IDS), st.sampled_from(KNOWN_IDS), st.just(TEMPERATURES), st.integers(0, 0xFFFF))
+    cid = st.one_of(st.sampled_from(KNOWN_IDS), st.sampled_from(KNOWN_IDS), st.just(TEMPERATURES), st.integers(0, 0xFFFF), st.sampled_from([0x0000, 0x0100, 0x00FF, 0xFFFF]))
     record = st.tuples(cid, hexb(data)).map(list)
     cases = st.fixed_dictionaries({
         "records": st.lists(record, min_size=0, max_size=12),
